@@ -273,8 +273,171 @@ theorem app_refines (b : AppBuilder) : Refines b.toWriter (appImage b) := by
       simp [List.append_assoc, h4]
       omega
 
-theorem bye_refines (b : ByeBuilder) : Refines b.toWriter (byeImage b) := by sorry
-theorem unknown_refines (b : UnknownBuilder) : Refines b.toWriter (unknownImage b) := by sorry
-theorem custom_refines (b : CustomBuilder) : Refines b.toWriter (customImage b) := by sorry
+/-! ## BYE -/
+
+theorem srcImages_length (ss : List UInt32) : ((ss.map be32).flatten).length = 4 * ss.length := by
+  induction ss with
+  | nil => rfl
+  | cons s rest ih => simp [ih]; omega
+
+theorem writeSources_append (ss : List UInt32) {done rest : Bytes} {i : Nat}
+    (hi : done.length = i) (hr : 4 * ss.length ≤ rest.length) :
+    ByeBuilder.writeSources ss (done ++ rest) i
+      = .ok (done ++ (ss.map be32).flatten ++ rest.drop (4 * ss.length), i + 4 * ss.length) := by
+  induction ss generalizing done rest i with
+  | nil => simp [ByeBuilder.writeSources]
+  | cons s ss ih =>
+    simp only [List.length_cons] at hr
+    unfold ByeBuilder.writeSources
+    rw [copyAt_append hi (by simp) (by simp; omega)]
+    simp only []
+    rw [ih (by simp; omega) (by simp; omega)]
+    simp [List.append_assoc, List.drop_drop]
+    constructor
+    · congr 1; omega
+    · omega
+
+theorem bye_calcSize_cases (b : ByeBuilder) :
+    (∃ e, b.calcSize = .err e) ∨
+    (b.sources.length ≤ 31 ∧ b.padding.toNat % 4 = 0 ∧
+      ((b.reason = [] ∧ b.calcSize = .ok (4 + 4 * b.sources.length + b.padding.toNat)) ∨
+       (b.reason ≠ [] ∧ b.reason.length ≤ 255 ∧
+         b.calcSize = .ok (4 + 4 * b.sources.length + pad4 (1 + b.reason.length) + b.padding.toNat)))) := by
+  unfold ByeBuilder.calcSize
+  split
+  · exact .inl ⟨_, rfl⟩
+  · next hlen =>
+    rcases checkPadding_cases b.padding with ⟨hp, h⟩ | ⟨hp, h⟩ <;> simp only [h, R.ok_bind, R.err_bind]
+    · by_cases hr : b.reason = []
+      · refine .inr ⟨by omega, hp, .inl ⟨hr, ?_⟩⟩
+        simp [hr]
+      · have hre : b.reason.isEmpty = false := by simpa using hr
+        simp only [hre, Bool.not_false, ↓reduceIte]
+        split
+        · exact .inl ⟨_, rfl⟩
+        · refine .inr ⟨by omega, hp, .inr ⟨hr, by omega, ?_⟩⟩
+          simp only [R.pure_eq]
+          congr 1
+          unfold pad4; omega
+    · exact .inl ⟨_, rfl⟩
+
+theorem bye_refines (b : ByeBuilder) : Refines b.toWriter (byeImage b) := by
+  rcases bye_calcSize_cases b with ⟨e, he⟩ | ⟨hlen, hp, ⟨hr, hs⟩ | ⟨hr, hrl, hs⟩⟩
+  · exact refines_of_err he
+  · refine refines_of_ok hs ?_ ?_
+    · simp [byeImage, packet_length, -List.length_flatten, srcImages_length, hr]
+    · intro buf hl
+      show b.writeUnchecked buf = _
+      unfold ByeBuilder.writeUnchecked
+      rw [writeHeader_spec _ _ _ _ (by omega) (by rw [toUInt8_toNat_of_lt (by omega)]; exact hlen)]
+      simp only [R.ok_bind]
+      rw [writeSources_append _ (by simp) (by simp; omega)]
+      simp only [R.ok_bind, hr, List.isEmpty_nil, Bool.not_true, Bool.false_eq_true, ↓reduceIte, R.pure_eq]
+      rw [withTail_writePadding_final _ (by simp [-List.length_flatten, srcImages_length]) (by simp; omega)]
+      simp only [R.ok_bind]
+      rw [toUInt8_toNat_of_lt (by omega)]
+      unfold byeImage
+      rw [← packet_eq _ _ _ _ (total := buf.length)
+        (by simp [-List.length_flatten, srcImages_length, hr]; omega)]
+      simp [List.append_assoc, hr]
+  · have hre : b.reason.isEmpty = false := by simpa using hr
+    have hpad := le_pad4 (1 + b.reason.length)
+    have hcomm : pad4 (b.reason.length + 1) = pad4 (1 + b.reason.length) := by rw [Nat.add_comm]
+    refine refines_of_ok hs ?_ ?_
+    · simp [byeImage, packet_length, -List.length_flatten, srcImages_length, hre, zfill_length]
+      omega
+    · intro buf hl
+      show b.writeUnchecked buf = _
+      unfold ByeBuilder.writeUnchecked
+      rw [writeHeader_spec _ _ _ _ (by omega) (by rw [toUInt8_toNat_of_lt (by omega)]; exact hlen)]
+      simp only [R.ok_bind]
+      rw [writeSources_append _ (by simp) (by simp; omega)]
+      simp only [R.ok_bind, hre, Bool.not_false, ↓reduceIte]
+      rw [setByte_append _ (by simp [-List.length_flatten, srcImages_length]) (by simp; omega)]
+      simp only [R.ok_bind]
+      have hp4 : pad4 (4 + 4 * b.sources.length + 1 + b.reason.length)
+          = 4 + 4 * b.sources.length + pad4 (1 + b.reason.length) := by unfold pad4; omega
+      rw [hp4, List.append_cons]
+      rw [copyAt_append (by simp [-List.length_flatten, srcImages_length]; omega) (by simp) (by simp; omega)]
+      simp only [R.ok_bind]
+      rw [fillAt_append_if_bind _ _ (by simp [-List.length_flatten, srcImages_length]; omega) (by omega)
+        (by simp; omega)]
+      simp only [R.ok_bind, R.pure_eq]
+      rw [withTail_writePadding_final _ (by simp [-List.length_flatten, srcImages_length]; omega) (by simp; omega)]
+      simp only [R.ok_bind]
+      rw [toUInt8_toNat_of_lt (by omega)]
+      unfold byeImage
+      rw [← packet_eq _ _ _ _ (total := buf.length)
+        (by simp [-List.length_flatten, srcImages_length, hre, zfill_length]; omega)]
+      simp [List.append_assoc, hre, zfill]
+      omega
+theorem unknown_calcSize_cases (b : UnknownBuilder) :
+    (∃ e, b.calcSize = .err e) ∨
+    (b.count.toNat ≤ 31 ∧ b.calcSize = .ok (4 + b.data.length + b.padding.toNat)) := by
+  unfold UnknownBuilder.calcSize
+  split
+  · exact .inl ⟨_, rfl⟩
+  · next hc =>
+    rcases checkPadding_cases b.padding with ⟨hp, h⟩ | ⟨hp, h⟩ <;> simp only [h, R.ok_bind, R.err_bind]
+    · split
+      · exact .inl ⟨_, rfl⟩
+      · unfold checkPacketLen
+        split
+        · exact .inl ⟨_, rfl⟩
+        · refine .inr ⟨?_, rfl⟩
+          simp [UInt8.lt_iff_toNat_lt] at hc
+          omega
+    · exact .inl ⟨_, rfl⟩
+
+theorem unknown_refines (b : UnknownBuilder) : Refines b.toWriter (unknownImage b) := by
+  rcases unknown_calcSize_cases b with ⟨e, he⟩ | ⟨hc, hs⟩
+  · exact refines_of_err he
+  · refine refines_of_ok hs ?_ ?_
+    · simp [unknownImage, packet_length]
+    · intro buf hl
+      show b.writeUnchecked buf = _
+      unfold UnknownBuilder.writeUnchecked
+      rw [writeHeader_spec _ _ _ _ (by omega) hc]
+      simp only [R.ok_bind]
+      rw [setByte_header_pt]
+      simp only [R.ok_bind]
+      rw [copyAt_append (by simp) (by simp) (by simp; omega)]
+      simp only [R.ok_bind]
+      rw [withTail_writePadding_final _ (by simp) (by simp; omega)]
+      simp only [R.ok_bind, R.pure_eq]
+      unfold unknownImage
+      rw [← packet_eq _ _ _ _ (total := buf.length) (by omega)]
+
+theorem custom_calcSize_cases (b : CustomBuilder) :
+    (∃ e, b.calcSize = .err e) ∨ (b.calcSize = .ok (b.bodyEnd + b.padding.toNat)) := by
+  unfold CustomBuilder.calcSize
+  rcases checkPadding_cases b.padding with ⟨hp, h⟩ | ⟨hp, h⟩ <;> simp only [h, R.ok_bind, R.err_bind]
+  · split
+    · exact .inl ⟨_, rfl⟩
+    · exact .inr rfl
+  · exact .inl ⟨_, rfl⟩
+
+theorem custom_refines (b : CustomBuilder) : Refines b.toWriter (customImage b) := by
+  rcases custom_calcSize_cases b with ⟨e, he⟩ | hs
+  · exact refines_of_err he
+  · have hbe : b.bodyEnd = 4 + b.body.length + (b.min - 4 - b.body.length) := by
+      unfold CustomBuilder.bodyEnd; omega
+    refine refines_of_ok hs ?_ ?_
+    · simp [customImage, packet_length]; omega
+    · intro buf hl
+      show b.writeUnchecked buf = _
+      unfold CustomBuilder.writeUnchecked
+      rw [writeHeader_spec _ _ _ _ (by omega) (by simp)]
+      simp only [R.ok_bind]
+      rw [copyAt_append (by simp) (by simp) (by simp; omega)]
+      simp only [R.ok_bind]
+      rw [fillAt_append _ (by simp) (by omega) (by simp; omega)]
+      simp only [R.ok_bind]
+      rw [withTail_writePadding_final _ (by simp; omega) (by simp; omega)]
+      simp only [R.ok_bind, R.pure_eq]
+      unfold customImage
+      rw [← packet_eq _ _ _ _ (total := buf.length) (by simp; omega)]
+      have h4 : b.bodyEnd - (4 + b.body.length) = b.min - 4 - b.body.length := by omega
+      simp [List.append_assoc, h4]
 
 end Rtcp.Proofs
